@@ -1,7 +1,7 @@
 (** C05 — state queries agree with the schedule, whatever was asked before.
     Statements only; proofs in proofs/Queries.v, SessionInv.v, Partition.v, Tracking.v. *)
 From JSL Require Import Base Instance Dstate Filters World Observers Session Feasible Derived QuerySpec
-     DispatchFun Inv Run Tracking Queries Partition SessionInv.
+     DispatchFun Inv Run Replay Tracking Queries Partition SessionInv UnschedObs.
 From Coq Require Import Permutation.
 
 (** For every instance with durations >= 0, every filter configuration and
@@ -48,6 +48,22 @@ Proof.
   split; [exact (completed_ongoing_disjoint I fs d)|reflexivity].
 Qed.
 Print Assumptions C05_partitions.
+
+(** The unscheduled-operations observer, subscribed at the initial state (or
+    since a reset, which restores [all_deques I]): after ANY request list its
+    per-job deques hold exactly the operations from each job's next position
+    on, and its iterable (their concatenation) IS [unscheduled_operations()] of
+    the same state - same elements, same order. *)
+Theorem C05_unscheduled_observer :
+  forall (I : instance) (fs : list fname) (rs : list request), valid I ->
+    let d := fold_left (apply_req I) rs (init_d I) in
+    run_from obs o_update I (unsched_world fs (init_d I) (all_deques I)) rs = unsched_world fs d (exp_dq I d) /\
+    concat (exp_dq I d) = p_unsched I d.
+Proof.
+  intros I fs rs Hv d. split; [|apply unsched_observer_is_query].
+  rewrite all_deques_is_exp. apply (unsched_observer_tracks I fs rs (init_d I) (Inv_init I) Hv).
+Qed.
+Print Assumptions C05_unscheduled_observer.
 
 (** Non-vacuity: a script with a dispatch, [uncompleted_operations()] and then
     [unscheduled_operations()] (the order that used to alias the cached list). *)
